@@ -543,6 +543,16 @@ impl Check for C13 {
         for prog in super::evalorder::SELF_TARGET_PROGRAMS {
             cases.push(Case::new(prog.to_string(), T_REF, "targets, indices or bounds that reach the container being assigned".to_string()));
         }
+        for prog in super::evalorder::BOUND_ROUTE_PROGRAMS {
+            cases.push(Case::new(prog.to_string(), T_REF, "items keep what they are through spreads, slices, patterns and collects".to_string()));
+        }
+        // parameter lists of every length are checked where the function is defined
+        for params in ["[a, a]", "{k, \"j\": k}", "[a, ..a]", "{\"x\": 0}", "[1]", "[a, [b, a]]", "{\"p\": [q, q]}", "a, a", "a, [a]", "[a], {a}", "a, ..a", "..a", "[..a, b]", "{..r, k}", "[a, \"s\"]", "null", "[]", "{}", "_", "[_, _]", "{\"k\": _, \"j\": _}"] {
+            for form in ["fn f(@) {\nprint(\"body\")\n}\n", "f := fn (@) {\nprint(\"body\")\n}\n", "fn f(@) {\n}\n", "o := {\"m\": fn (@) {\n}}\n", "fn outer() {\nfn f(@) {\n}\nreturn 1\n}\n"] {
+                cases.push(Case::new(format!("print(\"pre\")\n{}print(\"after\")\n", form.replace('@', params)), T_REF, format!("parameter list ({}) in {:?}, never called", params, form.replace('\n', " "))));
+            }
+        }
+        cases.push(Case::new(super::evalorder::SCOPING_PROGRAMS[0].to_string(), T_REF, "pattern keys that read names bound earlier in the same pattern".to_string()));
         let total = cases.len();
         let mut n_ok = 0;
         let mut n_err = 0;
